@@ -345,7 +345,7 @@ func (p *pgBoundValue) GetData(setting config.ColumnEncryptionSetting) ([]byte, 
 
 	switch p.format {
 	case base.TextFormat:
-		if setting.OnlyEncryption() || setting.IsSearchable() || setting.IsConsistentTokenization() || len(setting.GetMaskingPattern()) != 0 {
+		if config.IsBinaryDataOperation(setting) || setting.IsConsistentTokenization() {
 			// binary data in TextFormat received as Hex/Octal encoded values
 			// so we should decode them before processing
 
